@@ -476,6 +476,132 @@ def run_case(c):
     return out
 
 
+
+# ------------------------------------------------------------------ history / object-reuse probes
+
+ROUTINES = ('mean_first_passage_time', 'diffusion_efficiency', 'pagerank_centrality', 'subgraph_centrality',
+            'eigenvector_centrality_und', 'findwalks')
+
+
+def gen_probes(rs, tier):
+    """short call sequences on shared objects: the result of every routine is a function of the argument values only"""
+    N = 120 if tier != 'thorough' else 900
+    P = []
+    kinds = ('arg-mutate', 'returned-edit', 'pair', 'sequence', 'option-sequence')
+    for t in range(N):
+        f = ROUTINES[t % len(ROUTINES)]
+        und = f in ('subgraph_centrality', 'eigenvector_centrality_und') or rs.rand() < 0.5
+        n = int(rs.randint(3, 8))
+        if und:
+            while True:
+                A = rand_graph(rs, n, rs.choice([0.5, 0.8]), False, wmax=int(rs.choice([1, 3])))
+                if is_connected(A):
+                    break
+        else:
+            A = rand_strong(rs, n, int(rs.choice([1, 3])))
+        while True:       # a second, different matrix of the same size
+            B = rand_graph(rs, n, 0.7, False, wmax=2) if und else rand_strong(rs, n, 2)
+            if (is_connected(B) if und else True) and not np.array_equal(A, B):
+                break
+        P.append({'probe': kinds[(t // len(ROUTINES)) % len(kinds)], 'f': f, 'g': ROUTINES[int(rs.randint(len(ROUTINES)))], 'und': bool(und),
+                  'A': A.astype(int).tolist(), 'B': B.astype(int).tolist(), 'd': float(DAMP[t % 3]),
+                  'falff': [int(x) for x in rs.randint(1, 5, size=n)], 'edit': int(rs.randint(3)), 'seed': int(rs.randint(2 ** 31 - 1))})
+    return P
+
+
+def run_probe(pc):
+    bct = import_bct()
+    import copy
+    A = np.array(pc['A'], dtype=float); B = np.array(pc['B'], dtype=float); n = len(A); und = pc['und']
+    d = pc['d']
+    prs = np.random.RandomState(pc['seed'])
+
+    def routine(name):
+        f = getattr(bct, name)
+        if name == 'pagerank_centrality':
+            return lambda M, *fa: f(M, d, *fa)
+        if name in ('subgraph_centrality', 'eigenvector_centrality_und') and not und:
+            return lambda M: f(np.maximum(M, M.T))      # spectral routines only see symmetric input
+        return f
+    f = routine(pc['f']); g = routine(pc['g'])
+    out = {'probe': pc['probe'], 'f': pc['f'], 'fail': None, 'ran': 0}
+    edges = [(i, j) for i in range(n) for j in range(n) if A[i, j] != 0 and (i < j or not und)]
+    (ei, ej) = edges[int(prs.randint(len(edges)))]
+
+    def mutate(args):          # re-weight one existing edge in place (symmetric for undirected input): stays in the domain
+        M = args[0]
+        M[ei, ej] += 2
+        if und:
+            M[ej, ei] += 2
+        if len(args) > 1 and isinstance(args[1], np.ndarray):
+            args[1][0] += 3       # and the prior vector
+
+    def edit(r):               # the caller edits the returned array(s) in place
+        for a in (r if isinstance(r, tuple) else (r,)):
+            if isinstance(a, np.ndarray) and a.size:
+                if pc['edit'] == 0:
+                    a *= -3.0
+                elif pc['edit'] == 1:
+                    a[...] = 7.0
+                else:
+                    np.reciprocal(a, out=a, where=(a != 0))
+
+    def snap(r):
+        return copy.deepcopy(r)
+    T = 20.0
+    kind = pc['probe']
+    if kind == 'arg-mutate':
+        args = [A.copy()] + ([np.array(pc['falff'], dtype=float)] if pc['f'] == 'pagerank_centrality' and pc['edit'] else [])
+        res = reuse_probe(f, args, mutate, t=T, tol=1e-12)
+        out['ran'] = 1
+        if res is not None:
+            out['fail'] = res
+    elif kind == 'pair':       # g(A) between two f(A) on the same object, A edited in place in between
+        M = A.copy()
+        res = reuse_probe(lambda X: (g(X), f(X))[1], [M], mutate, t=T, tol=1e-12)
+        out['ran'] = 1
+        if res is not None:
+            out['fail'] = dict(res, g=pc['g'])
+    elif kind == 'returned-edit':    # f(A); edit the returned array in place; [g(A)]; f(A) again must equal the first result
+        M = A.copy()
+        s1, r1 = call(f, M, t=T)
+        if s1 == 'ok':
+            want = snap(r1); edit(r1)
+            if pc['edit'] != 1:
+                call(g, M, t=T)
+            s2, r2 = call(f, M, t=T)
+            s3, r3 = call(f, A.copy(), t=T)
+            out['ran'] = 1
+            if s2 == 'ok' and s3 == 'ok' and not (same_result(r2, want, 1e-12) and same_result(r3, want, 1e-12)) and np.array_equal(M, A):
+                out['fail'] = {'first_result': str(want)[:300], 'after_editing_the_returned_array': str(r2)[:300], 'on_a_fresh_copy': str(r3)[:300], 'g': pc['g']}
+            elif s2 != 'ok' or s3 != 'ok':
+                out['fail'] = {'second_call': s2, 'fresh_copy_call': s3, 'detail': str(r2)[:200]}
+    elif kind == 'sequence':         # f(A), g(B), f(B), f(A): same-size inputs in mixed order
+        s1, r1 = call(f, A.copy(), t=T)
+        want = snap(r1)
+        call(g, B.copy(), t=T); call(f, B.copy(), t=T)
+        s2, r2 = call(f, A.copy(), t=T)
+        out['ran'] = 1
+        if s1 == 'ok' and (s2 != 'ok' or not same_result(r2, want, 1e-12)):
+            out['fail'] = {'first_result': str(want)[:300], 'after_g(B)_f(B)': str(r2)[:300], 'g': pc['g'], 'B': pc['B']}
+    else:                            # option away from its default, then the default
+        fa = np.array(pc['falff'], dtype=float)
+        s0, r0 = call(bct.pagerank_centrality, A.copy(), d, fa, t=T)
+        s1, r1 = call(bct.pagerank_centrality, A.copy(), d, t=T)
+        s2, r2 = call(bct.pagerank_centrality, A.copy(), d, np.ones(n) * 5.0, t=T)     # uniform prior given explicitly, unnormalised
+        s3, r3 = call(bct.pagerank_centrality, A.copy(), d, fa * 4.0, t=T)             # the prior is only used through falff / sum(falff)
+        out['ran'] = 1; out['f'] = 'pagerank_centrality'
+        if 'ok' != s1 or s2 != 'ok' or not same_result(r1, r2, 1e-12):
+            out['fail'] = {'default_prior_after_custom_prior': str(r1)[:300], 'explicit_uniform_prior': str(r2)[:300]}
+        elif s0 != s3 or (s0 == 'ok' and not same_result(r0, r3, 1e-12)):
+            out['fail'] = {'prior_f': str(r0)[:300], 'prior_4f': str(r3)[:300]}
+    return out
+
+
+def run_any(c):
+    return run_probe(c) if 'probe' in c else run_case(c)
+
+
 # ------------------------------------------------------------------ correspondence
 
 def fvals(s):
@@ -545,7 +671,7 @@ def main():
     ck.cov['rule'] = ('cases = (graph, damping d, prior f): every connected labelled graph on <=5 nodes (thorough; one per isomorphism class plus a random '
                       'labelled slice in quick), all graphs on <=4 nodes, cycles, K_{a,b}, regular graphs (circulants, K_n, cube, Petersen), disjoint copies (block ordered and with interleaved / randomly shuffled node labels), '
                       'random weighted connected undirected and strongly connected directed graphs n=3..6, rational weights k/den (den=2..16: trees, cycles, pendant nodes, weak directed cycles with row/column strengths in (0,1)), d in {.5,.85,.99}; each case is run through '
-                      'every routine whose domain contains it; non-trivial = distinct (graph, d, f) with at least one edge on which at least one routine returned')
+                      'every routine whose domain contains it; the case list is shuffled before it is split over the workers; history / object-reuse probes (argument edited in place between two calls, returned array edited in place, g(A) between two f(A), f(A) g(B) f(B) f(A) on same-size inputs, prior option then default); non-trivial = distinct (graph, d, f) with at least one edge on which at least one routine returned')
     ck.assumptions += ['random-walk measures only on connected undirected / strongly connected directed inputs; spectral measures on symmetric non-negative input',
                        'LAPACK / expm / libm are outside the proof: float results are compared with exact rational values at 1e-8 relative',
                        'PageRank fixed point is asserted only when no column of A is empty (otherwise the code rescales, see notes/C18.md)']
@@ -555,10 +681,18 @@ def main():
     if ck.replay:
         cases = [json.load(open(ck.replay))['case']['case']]
     else:
-        cases = gen_cases(ck.rs, ck.tier)
-    results = pmap(run_case, cases)
+        cases = gen_cases(ck.rs, ck.tier) + gen_probes(ck.rs, ck.tier)
+        # interleave: no worker sees the cases grouped by family, routine or size (hidden state across calls must not line up with the case order)
+        cases = [cases[i] for i in ck.rs.permutation(len(cases))]
+    results = pmap(run_any, cases)
     lines, meta = [], []
     for c, r in zip(cases, results):
+        if 'probe' in c:
+            ck.count('probe:' + c['probe'], r['ran']); ck.count('probe-routine:' + r['f'], r['ran'])
+            ck.case(nontrivial_key=digest(c) if r['ran'] else None)
+            if r['fail'] is not None:
+                ck.violation(r['f'], 'result-depends-on-history', {'case': c, 'info': r['fail']}, {'family': 'probe:' + c['probe'], 'den': 1})
+            continue
         A = np.array(c['A'])
         nontriv = bool(A.any()) and bool(r['ops'])
         ck.count('family:' + c['fam']); ck.count('n=%d' % len(A)); ck.count('timeouts', r['timeouts'])
